@@ -18,6 +18,6 @@ Next == Load \/ Use
 Spec == Init /\ [][Next]_vars
 NoSelfGrant == st.effect => Granted(c)
 InjectionIrrelevant == st.effect => MayRun(c)
-VarsPathContained == (st.effect /\ CapOf(c.kind) = "vars" /\ c.dirs # "none") => Contained(c.pathclass)
+VarsPathContained == (st.effect /\ CapOf(c.kind) = "vars" /\ c.dirs # "none") => Allowed(c)
 SecurityErrorAtFirstNeed == (st.phase = "used" /\ ~Granted(c)) => st.error = "security" /\ ~st.effect
 =============================================================================
